@@ -36,7 +36,7 @@ misses were run a second time on a quiet machine before they were believed). Rou
 sub-agents were also asked to mention, without proving it, anything in the unchanged code they suspected of violating the
 property (DESIGN section 8: D18-D25 came out of those remarks). Patches are filed as written, against the tree of their round:
 five of them (C04e, C04h, C14d, C14k, C19i) touch lines a later `fix:` commit changed and do not apply to the current HEAD.
-Round 10 (`C..o`, `C..p`, twenty changes for ten properties, same brief as round 9), run in the last hours: seven of its eight misses were closed, one (C17o) is recorded as a gap.
+Round 10 (`C..o`, `C..p`, twenty changes for ten properties, same brief as round 9), run in the last hours: all eight misses were closed (the last one, C17o, by a slow but healthy peer of the relay in C17).
 
 `silent` marks a check that was run in addition and is not expected to fire (the clause the change
 breaks is decided by the other check listed), or - for C11b - the quick tier.
@@ -52,4 +52,4 @@ tot={r:[0,0] for r in (1,2,3,4,5,6,7,8,9,10)}
 for sid,needs,first,now,suite in rows:
     tot[rnd(sid)][0]+=1
     if first.startswith("DETECTED"): tot[rnd(sid)][1]+=1
-out.write("Detected by the checks as they stood / changes: "+", ".join("round %d: %d/%d"%(r,tot[r][1],tot[r][0]) for r in tot)+". Every miss led to a stronger check (see the `first run` column and DESIGN.md section 13); all are detected now except C11b (thorough-tier configuration only), C04m (manifests only during shutdown, outside the properties) C16n (TLS branch of the statsd relay, not reachable through the harness' connection factory) and C17o (a relay flush that is slow as a whole while every write is fast: the fake connection's writes take no time).\n")
+out.write("Detected by the checks as they stood / changes: "+", ".join("round %d: %d/%d"%(r,tot[r][1],tot[r][0]) for r in tot)+". Every miss led to a stronger check (see the `first run` column and DESIGN.md section 13); all are detected now except C11b (thorough-tier configuration only), C04m (manifests only during shutdown, outside the properties) and C16n (TLS branch of the statsd relay, not reachable through the harness' connection factory).\n")
